@@ -72,12 +72,12 @@ def emit_pdb(table, model_records=None):
             if a["model"] != m:
                 continue
             if last is not None and a["chain"] != last:
-                out.append(("TER   %5d      %3s %1s%4d%1s" % (prev["serial"] + 1, prev["resname"], prev["chain"], prev["resseq"], prev["icode"] or "")).ljust(80))
+                out.append(("TER   %5d      %3s %1s%4d%1s" % ((prev["serial"] + 1) % 100000, prev["resname"], prev["chain"], prev["resseq"], prev["icode"] or "")).ljust(80))
             out.append(pdb_line(a))
             last = a["chain"]
             prev = a
         if prev is not None:
-            out.append(("TER   %5d      %3s %1s%4d%1s" % (prev["serial"] + 1, prev["resname"], prev["chain"], prev["resseq"], prev["icode"] or "")).ljust(80))
+            out.append(("TER   %5d      %3s %1s%4d%1s" % ((prev["serial"] + 1) % 100000, prev["resname"], prev["chain"], prev["resseq"], prev["icode"] or "")).ljust(80))
         if use_model:
             out.append("ENDMDL")
     out.append("END")
